@@ -165,4 +165,47 @@ def run(ck):
 
 
 def replay(rp):
+    """re-runs the schedule checker and ten random level/thread permutations on the recorded circuit"""
+    import random
+    inp = rp['input']
+    rng = random.Random(1)
+    try:
+        if inp.get('kind') == 'wave' and 'circuit' in inp:
+            k = wk.from_description(inp)
+            base = wk.run_case(k)
+            if mo.check_map(base, k.c, k.strip):
+                return True
+            keep = signal_cells(base, k.c)
+            from kyupy import wave_sim
+            for t in range(10):
+                saved = (wave_sim.wave_eval_gpu, wave_sim.wave_assign_gpu, wave_sim.wave_capture_gpu)
+                try:
+                    wave_sim.wave_eval_gpu = PermutedLauncher(saved[0], wave_sim.cuda, rng)
+                    wave_sim.wave_assign_gpu = PermutedLauncher(saved[1], wave_sim.cuda, rng)
+                    wave_sim.wave_capture_gpu = PermutedLauncher(saved[2], wave_sim.cuda, rng)
+                    g = wk.run_case(k, cuda=True)
+                finally:
+                    wave_sim.wave_eval_gpu, wave_sim.wave_assign_gpu, wave_sim.wave_capture_gpu = saved
+                if (not np.array_equal(np.asarray(g.s)[3:], np.asarray(base.s)[3:]) or not np.array_equal(np.asarray(g.abuf), np.asarray(base.abuf))
+                        or not np.array_equal(np.asarray(g.c)[keep], np.asarray(base.c)[keep])):
+                    return True
+            return False
+        if inp.get('kind') == 'logic' and 'circuit' in inp:
+            from kyupy import logic, logic_sim
+            c = cg.from_description(inp['circuit'])
+            stim = np.array(inp['stimulus'], dtype=np.uint8)
+            base, s1, _ = lc.run_logicsim(c, inp['m'], stim, inp['c_reuse'], inp['strip_forks'])
+            if mo.check_map(base, c, inp['strip_forks']):
+                return True
+            keep = signal_cells(base, c)
+            for t in range(10):
+                s = logic_sim.LogicSim(c, sims=stim.shape[1], m=inp['m'], c_reuse=inp['c_reuse'], strip_forks=inp['strip_forks'])
+                s.ops = permute_levels(s, rng)
+                s.s[0] = logic.mv_to_bp(stim)
+                s.s_to_c(); s.c_prop(); s.c_to_s()
+                if not np.array_equal(s.s[1], base.s[1]) or not np.array_equal(s.c[keep], base.c[keep]):
+                    return True
+            return False
+    except Exception:
+        return True
     return True
